@@ -18,6 +18,7 @@ FINDERS = [
     (r'textselection_by_offset|beginaligned_cursor', 'find_offset_accept'),
     (r'LimitIter', 'find_limit_slice'),
     (r'Handles', 'find_handles_setops'),
+    (r'::reindex|::gaps', 'find_reindex_ids'),
     (r'init_textseliters|next_textselection|FindTextSelectionsIter|TextResource::iter|vx_inserted_c', 'find_related_text'),
 ]
 
